@@ -928,11 +928,27 @@ class _Relayout(ast._Unparser):
     def visit_ImportFrom(self, node):
         if self.rng.random() >= self.p_split or any(a.name == '*' for a in node.names):
             return super().visit_ImportFrom(node)
+        rng = self.rng
+        cmt = lambda: ('  # c%d' % rng.randint(0, 9)) if rng.random() < 0.35 else ''
+        gap = lambda: rng.choice(['', '', '\n', '\n   # only a comment\n', '\n\n']) if rng.random() < 0.4 else ''
         self.fill('from ' + '.' * (node.level or 0) + (node.module or '') + ' import (')
+        comma_first = rng.random() < 0.3
+        broke = rng.random() < 0.8
+        if broke:
+            self.write(cmt())
         for i, a in enumerate(node.names):
-            self.write('\n' + ' ' * self.rng.choice([0, 0, 2, 8]) if self.rng.random() < 0.7 else ('' if i == 0 else ' '))
-            self.write(a.name + ((' as ' + a.asname) if a.asname else '') + (',' if i < len(node.names) - 1 else ''))
-        self.write('\n)' if self.rng.random() < 0.5 else ')')
+            item = a.name + ((' as ' + a.asname) if a.asname else '')
+            last = i == len(node.names) - 1
+            if broke:
+                self.write(gap().rstrip(' ') if i else '')
+                self.write('\n' + ' ' * rng.choice([0, 0, 2, 8]))
+                if comma_first:
+                    self.write((', ' if i else '  ') + item + cmt())
+                else:
+                    self.write(item + ('' if last and rng.random() < 0.5 else ',') + cmt())
+            else:
+                self.write(('' if i == 0 else ' ') + item + ('' if last else ','))
+        self.write('\n)' if broke else ')')
 
     def traverse(self, node):
         if isinstance(node, list) and node and all(isinstance(s, ast.stmt) for s in node):
